@@ -14,7 +14,7 @@ Definition yields (G : fenv) (fuel : nat) (c : callee) (self : option val) (args
 
 (* safe now: control flow never waits on a real comparison *)
 Ltac run :=
-  lazy -[Rplus Rmult Rminus Rdiv Rinv Ropp Rmax Rmin Rlt Rle Rgt Rge ln exp sqrt log10 IZR dec Rpower pow PI DBL_MAX not].
+  lazy -[Rplus Rmult Rminus Rdiv Rinv Ropp Rmax Rmin Rlt Rle Rgt Rge ln exp sqrt log10 IZR dec Rpower pow PI DBL_MAX not Rabs].
 Ltac norm_dec :=
   repeat match goal with
   | |- context [dec ?m ?e] =>
